@@ -382,7 +382,11 @@ pub fn observe(run: &mut Run, c: &Case, what: &str, weak_prefix: bool) -> Result
         let qc = format!("QUERY {} COUNT", t.name);
         let rc = run.w.db.cmd(&qc)?;
         let cnt = if rc.streamed { rc.rows.first().and_then(|r| r.first()).and_then(|v| v.as_i64()).unwrap_or(0) } else { 0 };
-        let count_excluded = c.no_count_after_recovery && !run.crashes.is_empty();
+        // open finding "process dies while a flush is in flight": an armed WAL step fires in the WAL task, which runs
+        // beside a flush started by an earlier (or the same) STORE; recovery then replays entries that are also in
+        // the new segment and aggregates count them twice. The COUNT comparison is excluded for such a crash.
+        let wal_step_with_flush_class_open = c.quiesce_before_kill && run.crashes.iter().any(|w| w.contains("step:wal."));
+        let count_excluded = (c.no_count_after_recovery && !run.crashes.is_empty()) || wal_step_with_flush_class_open;
         if cnt != set.len() as i64 && !count_excluded {
             return Ok(Some(("count-differs-from-selection".into(), json!({"at": what, "cmd": qc, "count": cnt, "selection": set.len(), "rows": set, "crashes": run.crashes, "log": log(run)}))));
         }
@@ -653,7 +657,9 @@ pub fn classes(ctx: &Ctx) -> Classes {
         excl_id_drift: ctx.open_any("crash.after_manual_flush_or_clean_restart"),
         excl_second_crash: false,
         buffered_wal: true,
-        single_type: ctx.open_any("agg.special_fields_skipped"),
+        // several types: aggregates must honour the event type (C09 finding, repaired) and a compaction must not
+        // leave a drained type readable from its inputs (C05 finding, open)
+        single_type: ctx.open_any("agg.special_fields_skipped") || ctx.open_any("compaction.partial_drain"),
         excl_compact_restart: ctx.open_any("crash.store_after_compaction_and_restart"),
         excl_store_after_restart: ctx.open_any("crash.store_after_crash_recovery"),
         excl_wal_steps: false,
